@@ -18,7 +18,8 @@ from .. import ser
 PROP = "C04"
 THEOREMS = [
     "C04_key_order", "C04_keys_first_occurrence", "C04_null_error_bijection",
-    "C04_failure_is_local_null", "C04_error_locality", "C04_history_invariant", "C04_history",
+    "C04_failure_is_local_null", "C04_error_locality", "C04_history_invariant", "C04_history_tables",
+    "C04_history",
     "C04_collect_partial", "C04_exec_eq_spec_partial",
 ]
 AXIOMS_OK = []
@@ -42,6 +43,16 @@ RULE = (
     "distinct = distinct (schema, document, variables, world)")
 
 _STATS = {"invalid_discarded": 0, "generated": 0}
+
+# a runaway implementation (or model evaluation) must fail inside this check, not take the machine down
+try:
+    import resource
+    _soft, _hard = resource.getrlimit(resource.RLIMIT_AS)
+    _want = 10 << 30
+    if _hard == resource.RLIM_INFINITY or _hard > _want:
+        resource.setrlimit(resource.RLIMIT_AS, (_want, _hard))
+except Exception:  # noqa
+    pass
 
 
 # ---------------------------------------------------------------- running
@@ -230,7 +241,8 @@ def _gen_request(rng, desc, allow_crash, max_sel=40, tries=12):
         dispatch.world = world
         o = _observe(lambda: graphql_blocking(schema, doc, variables=copy.deepcopy(raw), operation_name=opname,
                                               root=copy.deepcopy(req["root"]), validators=[_no_validation]))
-        if o.get("exc") in ("ResponseTooLarge", "ResponseTooDeep") or _size(o.get("data"), 20000) >= 20000:
+        if (o.get("exc") in ("ResponseTooLarge", "ResponseTooDeep") or _size(o.get("data"), 20000) >= 20000
+                or len(world.table) > 3000):
             _STATS["too_large_discarded"] = _STATS.get("too_large_discarded", 0) + 1
             continue
         req["world"] = world.entries()
@@ -282,6 +294,8 @@ def _rerecord(rng, desc, req):
     _observe(lambda: graphql_blocking(schema, doc, variables=copy.deepcopy(req["variables"]),
                                       operation_name=req["opname"], root=copy.deepcopy(req["root"]),
                                       validators=[_no_validation]))
+    if len(world.table) > 3000:
+        return None
     req["world"] = world.entries()
     return req
 
